@@ -264,7 +264,7 @@ class Program:
             from . import inline as _inline_mod
             _inline_mod.ENUM_CLASSES.clear()
             _inline_mod.ENUM_CLASSES.update(ci.name for ci in self.classes.values() if any(b.rsplit('.', 1)[-1] in ('Enum', 'IntEnum', 'StrEnum', 'Flag') for b in ci.bases))
-            from .inline import Inliner, load_reference, normalise_attribute_loops, normalise_class_constants, normalise_enum_values, normalise_local_tables, normalise_record_classes, normalise_compiled_patterns, normalise_literal_loops, normalise_module_constants, normalise_small_quantifiers
+            from .inline import Inliner, load_reference, normalise_record_objects, normalise_attribute_loops, normalise_class_constants, normalise_enum_values, normalise_local_tables, normalise_record_classes, normalise_compiled_patterns, normalise_literal_loops, normalise_module_constants, normalise_small_quantifiers
             ref = load_reference()
             if ref is not None:
                 for m in self.modules.values():
@@ -272,6 +272,12 @@ class Program:
                     for ci in self.classes.values():
                         if ci.module is m:
                             self._count('normalise_class_constants', normalise_class_constants(ci.node, ci.qualname, [f.node for f in ci.methods.values()], ref))
+                    n_objects = normalise_record_objects(m.tree, m.name, [fi.node for fi in self.functions.values() if fi.module is m and fi.parent is None], ref)
+                    self._count('normalise_record_objects', n_objects)
+                    if n_objects:
+                        # the methods became nested functions of the functions that used the object: index them
+                        for fi in [f for f in self.functions.values() if f.module is m and f.parent is None]:
+                            self._add_nested(m, fi)
                     self._count('normalise_record_classes', normalise_record_classes(m.tree, m.name, [fi.node for fi in self.functions.values() if fi.module is m and fi.parent is None], ref))
             for fi in self.functions.values():
                 if fi.parent is None:
